@@ -71,6 +71,24 @@ theorem C03_vec_element_addresses (reqs : List Req) (hv : ∀ r ∈ reqs, r.vali
   rw [Nat.add_mul, Nat.one_mul]
   omega
 
+/-- and the elements of such a vector do not run into each other, whichever variants they hold
+    (during an in-place conversion the front elements are already of the new variant, the back ones
+    still of the old): every datum of element `i` ends at or before the start of element `j > i`,
+    hence before every datum of element `j` -/
+theorem C03_vec_elements_disjoint (reqs : List Req) (def_ : Definition)
+    (hb : (run reqs).build = some def_) (m : Nat) (hm : def_.maxSize = some m) (cap : Nat) (hcap : m ≤ cap)
+    (hA : 0 < def_.maxTypeAlign) (base i j : Nat) (hij : i < j) :
+    ∀ v ∈ def_.variants, ∀ d ∈ v, ∀ d' : Nat,
+      base + i * (Gen.recLayout cap def_.maxTypeAlign).1 + off def_.defs d + sz def_.defs d
+        ≤ base + j * (Gen.recLayout cap def_.maxTypeAlign).1 + off def_.defs d' := by
+  intro v hvm d hd d'
+  obtain ⟨hge, _, _⟩ := C03_layout_holds_capacity cap def_.maxTypeAlign hA
+  have h3 := C02_contained reqs def_ hb m hm v hvm d hd
+  have h4 : (i + 1) * (Gen.recLayout cap def_.maxTypeAlign).1 ≤ j * (Gen.recLayout cap def_.maxTypeAlign).1 :=
+    Nat.mul_le_mul_right _ hij
+  rw [Nat.add_mul, Nat.one_mul] at h4
+  omega
+
 /-- non-vacuity of `C03_vec_element_addresses`: the example definition has capacity 24 under alignment 4
     (validity of the history and powers of two: see the examples of C01 and C02) -/
 example : ((run Ex.h1).build.map (·.maxTypeAlign)) = some 4 ∧ ((run Ex.h1).build.bind (·.maxSize)) = some 24 ∧
